@@ -255,9 +255,11 @@ class CallMixin:
                     text=ast.unparse(node.func) if hasattr(node, "func") else name)
         eff = self.effect("call", node, fr, **data)
         # may-raise fork requested by the rule
-        if self.opts.raising is not None and self.opts.raising(data):
+        rz = self.opts.raising(data) if self.opts.raising is not None else None
+        if rz:
             if self.decide(f"raises({name}@{getattr(node, 'lineno', 0)}:{getattr(node, 'col_offset', 0)})", node):
-                exc = Obj("builtins.Exception", args=(f"from {name}",), name=f"exc@{name}")
+                # the rule may name the exception class that is raised (default: an unspecified Exception)
+                exc = Obj(rz if isinstance(rz, str) else "builtins.Exception", args=(f"from {name}",), name=f"exc@{name}")
                 self.effect("raise", node, fr, value=exc, implicit=True, from_call=name)
                 raise _Raise(exc, node)
         self.cur_call = data
@@ -641,6 +643,8 @@ class CallMixin:
                 return self.raise_implicit("builtins." + type(e).__name__, node, fr)
             except Exception:
                 return sym()
+        if name == "len" and isinstance(a0, Obj) and a0.cls in self.repo.classes and a0.fields and self.repo.find_method(a0.cls, "__len__") is not None:
+            return self.call_function(self.repo.find_method(a0.cls, "__len__"), [], {}, node, fr, self_value=a0)
         if name in ("str", "repr") and isinstance(a0, Obj) and a0.cls in self.repo.classes and a0.fields:
             # the class's own __str__/__repr__ decides what the text is (and whether it is injective)
             for mname in (("__str__", "__repr__") if name == "str" else ("__repr__",)):
